@@ -25,6 +25,19 @@ CHECKS = {
              'swallowed by an unterminated instance/string are exempt from confinement. Known defects are in known_findings.json.',
         technique='exhaustive single-fault enumeration over structured inputs on the real reader + confinement oracle',
         ref='3/C03'),
+    'C04': dict(
+        text='Exhaustive single-fault enumeration over a grammar-directed family: 20 valid schemas (kitchen sink with every statement/expression kind, multi-schema '
+             'USE/REFERENCE with renames, 16 feature schemas, packed kind and inheritance families) + the shipped schemas, and ALL single semantic faults of the '
+             'listed classes at every declaration position (undefined type/supertype/subtype/schema/function/attribute, duplicate declarations, subtype and '
+             'select cycles of length 1-3, subtype not listing its supertype, re-declared inherited attribute, bad INVERSE) plus one token deleted / duplicated at '
+             'every token position; each run through check-express, exppp, exp2cxx and exp2python in a fresh directory with a fixed address-space layout. '
+             'Oracle: valid => exit 0 and no ERROR in all four; invalid => ERROR + non-zero exit in all four and no success text; exit != 0 <=> ERROR printed; '
+             'all four agree on every input.',
+        note='Trusted: the family is valid by construction (checked against the property text, not against the tools); a syntax mutant is required to be rejected '
+             'only for tokens whose loss/duplication cannot leave a valid schema, the others are judged for agreement and exit-vs-ERROR only; mutants of a base '
+             'schema on which a tool already fails are not judged for that tool.',
+        technique='exhaustive single-fault mutant enumeration x tool configurations on the real tools + cross-tool agreement oracle',
+        ref='3/C04'),
     'C05': dict(
         text='Bounded exhaustive enumeration on ASan+UBSan builds of the real reader/writer: (a) ALL strings of length <= 4 (thorough 5) over the 19-character '
              'Part 21 punctuation alphabet, each before "," and ")", read into 14 (thorough 30) attribute kinds (4.5 M reads in the quick tier), and all strings '
